@@ -218,10 +218,14 @@ def c08(tier, seed):
         "obligations": o["obligations"] + g["obligations"], "discharged": o["discharged"] + g["discharged"],
         "violations": o["violations"] + g["violations"] + ob["violations"],
         "evaluations": ob["evaluations"], "distinct": ob["evaluations"],
-        "bounded": [{"what": "byte identity (sha256 of the saved font, SOURCE_DATE_EPOCH fixed) across PYTHONHASHSEED values; across call histories in one process vs single calls in fresh processes (twice, TTF->OTF->TTF, static after variable, variable after CFF2); ufoLib2 vs defcon; in-memory vs saved-and-reopened UFO; inplace False vs True", "bound": f"{ob['evaluations']} compiles on fixture UFOs/designspaces", "result": "clean" if not ob["violations"] else "violations"}],
+        "bounded": [{"what": "byte identity (sha256 of the saved font, SOURCE_DATE_EPOCH fixed) across PYTHONHASHSEED values; across call histories in one process vs single calls in fresh processes (twice, TTF->OTF->TTF, static after variable, variable after CFF2); ufoLib2 vs defcon; in-memory vs saved-and-reopened UFO; inplace False vs True", "bound": f"{ob['evaluations']} compiles on fixture UFOs/designspaces ({len(ob['errors'])} steps skipped: the fixture is rejected identically in every run)", "result": "clean" if not ob["violations"] else "violations"}],
         "trusted": ["fontTools' serialisation is deterministic; TTFont.save with recalcTimestamp uses SOURCE_DATE_EPOCH for head.modified", "feaLib stores glyph classes used as coverage / mark filtering sets sorted by glyph id", "frames catalogue (see C07)"],
         "assumptions": ["set-typedness is inferred (constructors, literals, comprehensions, set algebra, annotations, attribute names assigned sets, repo functions returning sets, call-site arguments): a set that reaches an iteration untyped is not seen by the order obligations", "hash of enum members / tuples of str inherits the seed dependence of str; ints and None do not"],
         "explanation": f"order obligations: {o['obligations']} iteration sites over set-typed values, {o['discharged']} discharged (canonical/commutes/pinned); global-state frame obligations: {g['discharged']}/{g['obligations']}; observers (bounded): {ob['evaluations']} compiles; stale pins: {len(o['stale_pins'])}",
         "order_samples": o["samples"], "observer_samples": ob["samples"],
-        "checker_errors": [f"C08 observer: a compile step failed identically in every run, so it compares nothing: {e}" for e in ob["errors"][:3]],
+        # a fixture that the unchanged compiler rejects identically in every run compares nothing for that step: it is
+        # reported as skipped; only when a third or more of the steps fail is the observer itself considered broken
+        "skipped_steps": ob["errors"][:10],
+        "checker_errors": ([f"C08 observer: {len(ob['errors'])} compile steps failed identically in every run, so they compare nothing: {ob['errors'][:3]}"]
+                           if ob["errors"] and (ob["evaluations"] == 0 or 3 * len(ob["errors"]) >= ob["evaluations"]) else []),
     }
